@@ -15,11 +15,19 @@ import syntaxrun
 def run(tier, seed):
     ck = Check("C33", "model_checking", tier, seed)
     groups = []
-    r1, i1 = syntaxrun.items("expr", depth=1 if tier == "quick" else 2)
+    # (expressions stay at depth 1 in both tiers: at depth 2 the family contains operator trees nested to the
+    #  right and operator receivers, which have no text without parentheses -- Print is not injective there;
+    #  operator nesting is the chain family's business)
+    r1, i1 = syntaxrun.items("expr", depth=1)
     ck.add_tlc(r1)
     groups.append(("expr", i1))
     r2, i2 = syntaxrun.items("stmt", depth=1 if tier == "quick" else 2)
     ck.add_tlc(r2)
+    if len(i2) > 20000:
+        # TLC enumerates the whole family (92 000 statement trees at depth 2); the real parser gets a seeded sample
+        import random
+        random.Random(seed * 31 + 33).shuffle(i2)
+        i2 = i2[:20000]
     groups.append(("stmt", i2))
     # left-nested operator chains are trees of the grammar too (BinOp(BinOp(a, op1, b), op2, c) prints as `a op1 b op2 c`)
     r4, i4 = syntaxrun.items("chain", maxchain=3 if tier == "quick" else 5)
@@ -56,7 +64,7 @@ def run(tier, seed):
                         {"cmd": "garden reftest-ast p.gdn", "src": src, "expected": it["sexp"], "real": sx})
     ck.assumptions += ["the families cover the core grammar of tools/gen_prog.py's node kinds (literals, calls, method calls, operators, parentheses, lists, tuples, variants, let/assign/update, if/else, while, for, match, return, break, continue, assert, closures, functions); structs, dicts, imports, tests and type parameters are exercised by C12/C34/C26",
                        "Sexp mirrors the constructor names of src/parser/ast.rs; tools/rustdebug.py only removes positions, ids and punctuation"]
-    return ck.finish(rule="ExprTrees(d) and StmtTrees(d) exhaustively (d = 1 quick, 2 thorough) plus seeded generator programs printed by the specification; non-trivial = texts with more than one line or more than one parenthesis")
+    return ck.finish(rule="ExprTrees(1) and StmtTrees(d) (d = 1 quick; 2 thorough, of which the real parser gets a seeded sample of 20 000), operator chains, plus seeded generator programs printed by the specification; non-trivial = texts with more than one line or more than one parenthesis")
 
 
 def replay(rec):
